@@ -8,7 +8,8 @@ package sequencer
 // bar length in thirty-second notes: numerator x 32 / denominator, for every bar that fits into 255
 //@ func (Bar).Len
 //@ requires b.TimeSig[1] != 0
-//@ ensures [P:C20] (int(b.TimeSig[0]) * 32) / int(b.TimeSig[1]) <= 255 ==> int(result) == (int(b.TimeSig[0]) * 32) / int(b.TimeSig[1])
+// (16 bit arithmetic: numerator*32 is at most 8160, no wrap)
+//@ ensures [P:C20] (uint16(b.TimeSig[0]) * 32) / uint16(b.TimeSig[1]) <= 255 ==> uint16(result) == (uint16(b.TimeSig[0]) * 32) / uint16(b.TimeSig[1])
 
 // an event starts at its bar start plus its position and ends after its duration (0 = no end)
 //@ func (*Event).AbsTicks
